@@ -155,6 +155,9 @@ def jobs(tier):
         j = L0(fn, props, harness='l0_small.c', defines=['SMALL_' + fn], replace=repl)
         j['shape'] = 'all 256 character values / any table size up to 4 x capacity, capacity 6..4096 symbolic'
         J.append(j)
+    J.append({'id': 'L0.get_new_line_chars', 'props': ['C11', 'C20', 'C01', 'C03'], 'harness': 'l0_get_new_line_chars.c', 'dfcc': False, 'function': 'get_new_line_chars', 'replace': [],
+              'loop_contracts': False, 'defines': ['V_NO_CRLF_ASSUME'], 'expect': [], 'label': 'unbounded', 'timeout': 120, 'replay': None, 'cbmc_flags': [], 'tiers': ['quick', 'thorough'],
+              'shape': 'no dfcc: real static initialiser'})
     for fn, extra in (('get_command_by_index', []), ('is_command_disable', ['T_DISABLE'])):
         j = L0(fn, ['C02', 'C09', 'C03'], harness='l0_table.c', defines=extra, label='shape-bounded', cbmc_flags=['--unwind', '14', '--unwinding-assertions'])
         j['shape'] = 'up to 4 groups of 1..3 commands each, every disable-flag combination, every index'
@@ -170,6 +173,17 @@ def jobs(tier):
     J.append(L1('at', 'PRINT_CMD', 'sh32', props=['C19', 'C03']))
     for st in ('FORMAT_TEST_ARGS', 'WAIT_TEST_ACKNOWLEDGE', 'AFTER_FLUSH_FORMAT_TEST_ARGS'):
         J.append(L1('at', st, 'sep40', props=['C19', 'C03']))
+    # event queue of capacity 2 (and 3, 8 in the thorough tier): the states that can return OK, and the idle event machine
+    for st in ('ERROR', 'IDLE', 'PARSE_PREFIX', 'PARSE_COMMAND_CHAR', 'WAIT_READ_ACKNOWLEDGE', 'PARSE_COMMAND_ARGS', 'WAIT_TEST_ACKNOWLEDGE'):
+        J.append(L1('at', st, 'sh16', ring=2, props=['C13', 'C15', 'C03']))
+        J.append(L1('at', st, 'sh16', ring=3, props=['C13', 'C15', 'C03'], tiers=('thorough',)))
+    for st in UN_STATES:
+        J.append(L1('un', st, 'sh16', ring=2, props=['C13', 'C15', 'C03']))
+        J.append(L1('un', st, 'sh16', ring=3, props=['C13', 'C15', 'C03'], tiers=('thorough',)))
+        J.append(L1('un', st, 'sh16', ring=8, props=['C13', 'C15', 'C03'], tiers=('thorough',)))
+    for fn, call, props in API_FUNCS:
+        if 'C13' in props:
+            J.append(API(fn, call, props, ring=8, tiers=('thorough',)))
     for st in AT_STATES:
         if st not in ('READ_LOOP', 'TEST_LOOP', 'FORMAT_READ_ARGS', 'PARSE_COMMAND_ARGS'):
             J.append(L1('at', st, 'sep8', tiers=('thorough',)))
